@@ -925,9 +925,19 @@ pub fn step(cfg: &Cfg, sut: &mut Sut, m: &mut Model, pre: &Snapshot, op: Op, has
     // ---- M-room (C03): a new key whose weight fits always gets in and evicts nothing
     if let Op::Ins(k, w) = op {
         let pw = cfg.pw(w as u32) as u64;
+        // Room is computed from the residents the implementation holds. Once
+        // maintenance has run (U: every call purges first; S: the previous call was
+        // sync()), entries whose deadline has passed or that were invalidated no longer
+        // count: they must have been purged, and their weight given back.
+        let purged_view = u || m_pre.maintained;
+        let held: u64 = if purged_view {
+            pre.entries.iter().filter(|e| m_pre.live(cfg, e.key as u8)).map(|e| e.weight as u64).sum()
+        } else {
+            pre_sum
+        };
         let fits = match cfg.cap {
             None => true,
-            Some(c) => pre_sum + pw <= c,
+            Some(c) => held + pw <= c,
         };
         if !pre_phys.contains_key(&k) && fits {
             let busy: Vec<u8> = pre
